@@ -53,7 +53,8 @@ def case_gen(draw, files=True):
         case['compression'] = draw(st.sampled_from([None, 'gzip', 'zstd']))
         case['repeat'] = draw(st.sampled_from([1, 1, 40, 1500]))
         case['pad'] = draw(st.sampled_from([0, 0, 7, 301]))
-        case['open_obj'] = draw(st.booleans())
+        case['open_obj'] = draw(st.sampled_from([None, None, 'plain', 'short']))
+        case['encoding'] = draw(st.sampled_from(['utf-8', 'utf-8', 'utf-16', 'utf-32']))
     return case
 
 
@@ -110,21 +111,49 @@ def check_files(case):
                 it = dict(it)
                 it['pad%d' % (n % 3)] = pad[:len(pad) - (n % 5)]
             items.append(it)
-    ctx = {k: case[k] for k in ('compression', 'repeat', 'pad', 'open_obj')}
+    ctx = {k: case[k] for k in ('compression', 'repeat', 'pad', 'open_obj', 'encoding')}
+    enc = case['encoding']
     ctx['items'] = case['items']
     d = tempfile.mkdtemp(prefix='rxsci_c19_')
     opened = []
 
+    class ShortReads(object):
+        """A raw-IO style file object: read(n) may return fewer than n bytes before the end (pipes, sockets do)."""
+
+        def __init__(self, f):
+            self.f = f
+            self.k = 0
+
+        def read(self, n=-1):
+            self.k += 1
+            if n is None or n < 0:
+                return self.f.read()
+            return self.f.read(max(1, min(n, [7, 4096, n, 1000, 65535][self.k % 5])))
+
+        def write(self, b):
+            return self.f.write(b)
+
+        def close(self):
+            return self.f.close()
+
+        def __enter__(self):
+            return self
+
+        def __exit__(self, *a):
+            self.f.close()
+            return False
+
     def my_open(f, mode, encoding=None):
         opened.append(mode)
-        return open(f, mode)
+        fo = open(f, mode)
+        return ShortReads(fo) if case['open_obj'] == 'short' else fo
     try:
         f = os.path.join(d, 'x.json')
         kw = {'open_obj': my_open} if case['open_obj'] else {}
-        w = drive.collect(rx.from_(items).pipe(rjson.dump_to_file(f, compression=comp, **kw)))
+        w = drive.collect(rx.from_(items).pipe(rjson.dump_to_file(f, compression=comp, encoding=enc, **kw)))
         H.require_clean(w, 'dump_to_file', **ctx)
         size = os.path.getsize(f)
-        r = drive.collect(rjson.load_from_file(f, compression=comp, **kw))
+        r = drive.collect(rjson.load_from_file(f, compression=comp, encoding=enc, **kw))
         H.require_clean(r, 'load_from_file', **ctx)
         compare(items, r.items, ctx)
         if case['open_obj'] and sorted(opened) != ['rb', 'wb']:
@@ -132,7 +161,7 @@ def check_files(case):
     finally:
         shutil.rmtree(d, ignore_errors=True)
     lab = labels_of(case['items'])
-    labels = lab + ['compression:%s' % comp, 'file>64K' if size > 65536 else 'file<=64K', 'open_obj' if case['open_obj'] else 'path']
+    labels = lab + ['compression:%s' % comp, 'file>64K' if size > 65536 else 'file<=64K', 'open_obj:%s' % case['open_obj'], 'enc:' + enc]
     if not items:
         labels.append('no-objects')
     return {'nontrivial': size > 65536 or bool(lab), 'labels': labels}
